@@ -202,6 +202,16 @@ def run(ctx: Ctx) -> int:
                     hb.is_pressed()
                 if len(clicks) != sum(p["click"] for p in ps):
                     ctx.fail("button:host-count", f"host Button clicked {len(clicks)} times, firmware {sum(p['click'] for p in ps)}", replay)
+                # same sampled signal, but the simulated level glitches between two samples (set_pressed path)
+                clicks2 = []
+                hb2 = sensors.Button(7, on_click=lambda: clicks2.append(1))
+                for lv in sig[1:]:
+                    for g in range(rng.randint(0, 2)):
+                        hb2.set_pressed(not lv)
+                    hb2.set_pressed(bool(lv))
+                    hb2.is_pressed()
+                if len(clicks2) != sum(p["click"] for p in ps):
+                    ctx.fail("button:host-count-glitch", f"host Button (set_pressed with glitches between samples) clicked {len(clicks2)} times for sampled signal {sig[1:]}, firmware {sum(p['click'] for p in ps)}", replay)
         elif kind == "ultra":
             prog, npass, echoes, drifts = j
             # canonical events per call
